@@ -121,6 +121,26 @@ def _deps_failures():
     return out
 
 
+# ---------------------------------------------------------------- helpers.rs normpath / state.rs relpath
+def _path_failures(probe):
+    """-> {clause label: [failing input dicts]}: normpath over every string up to length 10 over {/ . a} and 8 over
+    {/ . a b} against an independent reference; relpath over ~180 spellings x bases in a small tree with a symlinked directory"""
+    d = tempfile.mkdtemp(prefix='redo-verif-path.', dir='/var/tmp')
+    try:
+        rows = run_probe(probe, cwd=d)
+    finally:
+        shutil.rmtree(d, ignore_errors=True)
+    if rows is None:
+        return None
+    out = {}
+    for r in rows:
+        if r.get('summary'):
+            out['__summary__'] = r
+            continue
+        out.setdefault(r['clause'], []).append(dict(input=r['input'], observed=r.get('output'), expected=r.get('expected'), clause=r['clause']))
+    return out
+
+
 # ---------------------------------------------------------------- interface used by run.py
 def search(prop, violations, tier, seed):
     """attach a concrete failing input to a reported violation, if a probe covers its function"""
@@ -133,6 +153,15 @@ def search(prop, violations, tier, seed):
                 hits = f.get(label) or [x for xs in f.values() for x in xs]
                 if hits:
                     return dict(probe='redo-replay tokens-exit', for_obligation=oid, failing_inputs=hits[:6])
+        for unit in ('normpath', 'relpath'):
+            if oid.startswith(unit + '/'):
+                f = _path_failures(unit)
+                if f:
+                    f.pop('__summary__', None)
+                    label = oid.split('/')[-1]
+                    hits = f.get(label) or [x for xs in f.values() for x in xs]
+                    if hits:
+                        return dict(probe='redo-replay ' + unit, for_obligation=oid, failing_inputs=hits[:6])
     return None
 
 
@@ -157,6 +186,16 @@ def conformance(prop, unit_names, pins_changed, labels_props):
                 out.append(dict(oid='tokens/do_force_return_tokens/%s' % label, msg='contract clause fails on the real code for a concrete input (probe tokens-exit)',
                                 where=REPO + '/src/jobserver.rs:do_force_return_tokens', site=None, text=hits[0]['clause'],
                                 rendered=json.dumps(hits[:6], indent=1), inputs=[h['input'] for h in hits], fn='do_force_return_tokens', label=label, props=props))
+    for unit, fn_, where in (('normpath', 'normpath', '/src/helpers.rs:normpath'), ('relpath', 'relpath', '/src/state.rs:relpath')):
+        if unit in unit_names:
+            f = _path_failures(unit) or {}
+            f.pop('__summary__', None)
+            for label, hits in f.items():
+                props = labels_props.get((unit, label), ['C15'])
+                if hits and prop in props:
+                    out.append(dict(oid='%s/%s/%s' % (unit, fn_, label), msg='contract clause fails on the real code for a concrete input (probe %s)' % unit,
+                                    where=REPO + where, site=None, text=hits[0]['clause'], rendered=json.dumps(hits[:6], indent=1),
+                                    inputs=[h['input'] for h in hits], fn=fn_, label=label, props=props))
     if any(p.endswith('::deps') or p.endswith('::zap_deps1') or p.endswith('::zap_deps2') or p.endswith('::add_dep') for p in pins_changed):
         f = _deps_failures()
         if f:
@@ -164,6 +203,31 @@ def conformance(prop, unit_names, pins_changed, labels_props):
                             where=REPO + '/src/state.rs:File::deps', site=None, text=f[0]['clause'], rendered=json.dumps(f[:4], indent=1),
                             inputs=[x['input'] for x in f], fn='deps', label='deps_reports_every_recorded_edge', props=[prop]))
     return out
+
+
+BOUNDED = {'C15': (('normpath', 'normpath', '/src/helpers.rs:normpath'), ('relpath', 'relpath', '/src/state.rs:relpath'))}
+
+
+def bounded(prop, unit_names, labels_props):
+    """bounded stand-ins run next to the proof (labelled bounded in the evidence): -> (failures, notes)"""
+    out, notes = [], []
+    for unit, fn_, where in BOUNDED.get(prop, ()):
+        if unit not in unit_names:
+            continue
+        f = _path_failures(unit)
+        if f is None:
+            notes.append('bounded probe %s: could not be built or run (nothing concluded from it)' % unit)
+            continue
+        summ = f.pop('__summary__', {})
+        notes.append('bounded probe %s: %s inputs checked against an independent reference, %s failure(s) [bounded, not counted as proved]'
+                     % (unit, summ.get('checked', '?'), summ.get('failures', '?')))
+        for label, hits in f.items():
+            props = labels_props.get((unit, label), [prop])
+            if hits and prop in props:
+                out.append(dict(oid='%s/%s/%s' % (unit, fn_, label), msg='contract clause fails on the real code for a concrete input (bounded probe %s)' % unit,
+                                where=REPO + where, site=None, text=hits[0]['clause'], rendered=json.dumps(hits[:6], indent=1),
+                                inputs=[h['input'] for h in hits], fn=fn_, label=label, props=props))
+    return out, notes
 
 
 def replay(prop, path):
